@@ -38,6 +38,28 @@ def run_emb(c):
     return {'T': T, 'idx': [int(v) for v in idx.reshape(-1).tolist()], 'g': ints(bp.reshape(T, D)), 'gs': ints(r[layer.weight][0])}
 
 
+def run_conv(c):
+    import torch.nn.functional as F
+    from opacus.grad_sample.conv import compute_conv_grad_sample
+    g = torch.Generator().manual_seed(c['seed'])
+    G, cg, og, Kk, stride, dil, pad, L = c['G'], c['cg'], c['og'], c['K'], c['stride'], c['dil'], c['pad'], c['L']
+    layer = nn.Conv1d(G * cg, G * og, Kk, stride=stride, padding=pad, dilation=dil, groups=G, bias=True)
+    x = torch.randint(-3, 4, (1, G * cg, L), generator=g).double()
+    if pad == 'same':
+        tot = dil * (Kk - 1)
+        lp, rp = tot // 2, tot - tot // 2
+    elif pad == 'valid':
+        lp = rp = 0
+    else:
+        lp = rp = pad
+    xp = F.pad(x, (lp, rp))
+    P = (xp.shape[-1] - dil * (Kk - 1) - 1) // stride + 1
+    bp = torch.randint(-3, 4, (1, G * og, P), generator=g).double()
+    r = compute_conv_grad_sample(layer, [x], bp)
+    gw = r[layer.weight][0].reshape(G * og, cg * Kk)
+    return {'P': P, 'xp': ints(xp[0]), 'g': ints(bp[0].t()), 'gw': ints(gw), 'gb': [int(round(v)) for v in r[layer.bias][0].tolist()]}
+
+
 if __name__ == '__main__':
     p = read_payload()
-    emit({'lin': [run_lin(c) for c in p.get('lin', [])], 'emb': [run_emb(c) for c in p.get('emb', [])]})
+    emit({'lin': [run_lin(c) for c in p.get('lin', [])], 'emb': [run_emb(c) for c in p.get('emb', [])], 'conv': [run_conv(c) for c in p.get('conv', [])]})
